@@ -71,6 +71,10 @@ def check_constructor(ctx, case):
 def check_pair(ctx, case):
     a, b = case
     m = (T.pc(b) - T.pc(a)) % 12
+    try:
+        intervals.measure(b, a)  # the opposite question first: its answer must not shape this one
+    except Exception:  # noqa - judged in its own case
+        pass
     r = ctx.ok("measure", intervals.measure, a, b)
     if not failed(r):
         ctx.check(isinstance(r, int) and not isinstance(r, bool) and r == m, "measure/value",
